@@ -32,6 +32,7 @@ type Cell struct {
 	Engine    bool   `json:"engine_level,omitempty"`
 	SlowLoad  bool   `json:"cancel_while_reading_input,omitempty"`
 	PreCancel bool   `json:"cancelled_before_run,omitempty"`
+	OsFs      bool   `json:"files_on_real_filesystem,omitempty"`
 }
 
 func httpFile(kind string, e int) (string, []byte) {
@@ -177,6 +178,9 @@ func key(c Cell, check string) string {
 	k := c.Kind
 	if c.Preload {
 		k += "+preload"
+	}
+	if c.OsFs {
+		k += "+osfs"
 	}
 	lvl := ""
 	if c.Engine {
@@ -504,6 +508,28 @@ func main() {
 			_ = json.Unmarshal(c.Case, &cell)
 			res.Violate(key(cell, "process-died"), "process died or hung while running this cell:\n"+c.Output, cell)
 		}})
+	// the same matrix, thinned out, with the ammo files on the real filesystem (os files: a second
+	// Close fails, …) instead of the in-memory one
+	var osBatches [][]json.RawMessage
+	osTotal := 0
+	for _, k := range kinds {
+		var cs []Cell
+		for i, c := range cells(k) {
+			if !c.SlowLoad && (vkit.Thorough() || i%6 == 0) {
+				c.OsFs = true
+				cs = append(cs, c)
+			}
+		}
+		osTotal += len(cs)
+		osBatches = append(osBatches, vkit.Batches(cs, len(cs)+1)...)
+	}
+	vkit.RunChildren(res, vkit.ChildSpec{Kind: "cells-osfs", Batches: osBatches, Parallel: 9, Timeout: 25 * time.Minute, Env: []string{"VERIF_FS=os"},
+		OnCrash: func(c vkit.Crash) {
+			var cell Cell
+			_ = json.Unmarshal(c.Case, &cell)
+			res.Violate(key(cell, "process-died"), "process died or hung while running this cell:\n"+c.Output, cell)
+		}})
+	res.Set("cells_on_real_filesystem", osTotal)
 	res.Set("cells_total", total)
 	res.Set("exhaustive", true)
 	res.Write()
